@@ -516,6 +516,17 @@ func runGateOneNotice(c *core.Ctx) {
 								}
 							}
 						}
+						// … or the call is a rejecting helper of the read function's own (`relay.refuse(ctx, send, in)`):
+						// on every way through it exactly one message is sent, built by such a constructor
+						if !isRej {
+							if sc := an.StaticCallee(&call.Call); an.PrivateHelper(sc) {
+								for _, i := range chanPassed(fn, g.sendIdx, &call.Call, sc) {
+									if i >= 0 && rejectsOnce(P, sc, i, isCtor) {
+										isRej = true
+									}
+								}
+							}
+						}
 						if !isRej {
 							okCtor = false
 						}
@@ -870,4 +881,49 @@ func runWritePath(c *core.Ctx) {
 		check(fn, 0)
 	}
 	c.Check(n >= 1 && len(foreign) == 0, nil, fname(c, loop), "single-writer", P.Pos(loop.Pos()), fmt.Sprintf("all %d conn.Write call site(s) are reached only from the write loop", n), fmt.Sprintf("conn.Write is reachable from outside the write loop (%v): frames of different writers can interleave", foreign))
+}
+
+// rejectsOnce: every entry→return path of helper h passes exactly one send on its idx-th parameter,
+// outside loops, and what is sent there is built by one of the protocol's rejection constructors.
+func rejectsOnce(P *core.Program, h *ssa.Function, idx int, isCtor func(string) bool) bool {
+	sends := map[ssa.Instruction]bool{}
+	for _, s := range sendsOnParam(P, h, idx, 0) {
+		call, ok := s.(*ssa.Call)
+		if !ok || an.InLoop(s.Block()) {
+			return false
+		}
+		ctor := false
+		for _, a := range call.Call.Args {
+			if isCtor(an.PathOf(a)) {
+				ctor = true
+			}
+		}
+		if !ctor {
+			return false
+		}
+		sends[s] = true
+	}
+	if len(sends) == 0 {
+		return false
+	}
+	for _, rb := range an.ReturnBlocks(h) {
+		paths, ok := an.PathsTo(h, rb, 1024)
+		if !ok {
+			return false
+		}
+		for _, p := range paths {
+			n := 0
+			for _, b := range p {
+				for _, in := range b.Instrs {
+					if sends[in] {
+						n++
+					}
+				}
+			}
+			if n != 1 {
+				return false
+			}
+		}
+	}
+	return true
 }
